@@ -681,3 +681,76 @@ def r11_blend_degrees(ck, P):
             ck.incomplete(R, '%s: nothing to check' % fn)
         else:
             ck.ok(R, '%s: %d values of degree (1,1)' % (fn, checked))
+
+
+def r11b_blend_degrees_8bit(ck, P):
+    """the same dimensional analysis for the separable PDF blend functions of the 8-bit pipeline (integer arithmetic, results scaled by
+    255 * 255 and normalised by the caller)"""
+    R = ck.rule('C01-R12', 'every 8-bit blend function (blend_screen ... blend_exclusion, parameters d, ad, s, as) is bi-homogeneous: sums, differences and comparisons combine terms of equal degree and the value returned has degree (1,1) in (source, destination)', floor=7)
+    u = P.units.get('pixman-combine32.c')
+    if u is None:
+        ck.incomplete(R, 'pixman-combine32.c not compiled'); return
+    ANY = 'any'
+    DEG = {'s': (1, 0), 'as': (1, 0), 'd': (0, 1), 'ad': (0, 1)}
+    for fn, f in sorted(u.functions.items()):
+        if not fn.startswith('blend_'):
+            continue
+        pn = [p[0] for p in f.params]
+        if set(pn) != set(DEG):
+            ck.incomplete(R, '%s: parameter roles not recognised (%s)' % (fn, pn)); continue
+        ck.saw(f)
+        problems = []; memo = {}
+        def deg(o, d=0):
+            if o[0] == 'c':
+                return ANY if int(o[1]) == 0 else (0, 0)
+            if o[0] == 'a':
+                return DEG[pn[o[1]]]
+            if o[0] != 'v' or d > 60:
+                return None
+            if o[1] in memo:
+                return memo[o[1]]
+            x = f.by_id[o[1]]; r = None
+            if x.op in ('mul', 'shl'):
+                a, b = deg(x.a[0], d + 1), deg(x.a[1], d + 1)
+                if x.op == 'shl':
+                    b = (0, 0)
+                r = ANY if ANY in (a, b) else (None if None in (a, b) else (a[0] + b[0], a[1] + b[1]))
+            elif x.op in ('sdiv', 'udiv'):
+                a, b = deg(x.a[0], d + 1), deg(x.a[1], d + 1)
+                r = ANY if a == ANY else (None if None in (a, b) or b == ANY else (a[0] - b[0], a[1] - b[1]))
+            elif x.op in ('add', 'sub', 'phi', 'select'):
+                ops = x.a if x.op != 'select' else x.a[1:]
+                ds = [deg(q, d + 1) for q in ops]
+                real = [q for q in ds if q != ANY]
+                if any(q is None for q in real):
+                    r = None
+                elif not real:
+                    r = ANY
+                elif len(set(real)) == 1:
+                    r = real[0]
+                else:
+                    problems.append((x, 'adds or merges terms of degrees %s' % sorted(set(real)))); r = real[0]
+            elif x.op in ('sext', 'zext', 'trunc'):
+                r = deg(x.a[0], d + 1)
+            memo[o[1]] = r
+            return r
+        checked = 0
+        for x in f.insts():
+            if x.op == 'ret' and x.a:
+                dd = deg(x.a[0]); checked += 1
+                if dd is None:
+                    problems.append((x, 'the value returned has a degree the rule cannot determine'))
+                elif dd not in (ANY, (1, 1)):
+                    problems.append((x, 'the value returned has degree (source %d, destination %d) instead of (1, 1)' % dd))
+            elif x.op == 'icmp':
+                a, b = deg(x.a[0]), deg(x.a[1])
+                if isinstance(a, tuple) and isinstance(b, tuple) and a != b:
+                    problems.append((x, 'compares quantities of degrees %s and %s' % (a, b)))
+        hard = [p for p in problems if 'cannot determine' not in p[1]]
+        if hard:
+            x, why = hard[0]
+            ck.violation(R, fn, 'degree at %s' % x.loc(), '%s: %s. A premultiplied blend term scales with the source alpha and with the destination alpha exactly once; this one does not, so the result is wrong whenever the two alphas differ' % (fn, why), x.loc())
+        elif problems:
+            ck.incomplete(R, '%s: %s (%s)' % (fn, problems[0][1], problems[0][0].loc()))
+        else:
+            ck.ok(R, '%s: %d return values of degree (1,1)' % (fn, checked))
